@@ -1,1 +1,748 @@
-//! C04 harnesses (Engine K)
+//! C04 — "settings change only when signed by the specific authority recorded on-chain for that setting".
+//! Anchor-dispatched *settings / admin* instructions: one harness per accounts struct on the Anchor-generated
+//! `try_accounts` (all authority checks of these instructions live in account constraints; the handlers only
+//! write the new value).  Accounts are built with `AccountInfo::new`; account keys, signer / writable flags,
+//! lamports, the owner of the signer / unchecked accounts and the account bodies (or, for the 653-byte Whirlpool,
+//! every field the constraints read) are symbolic.  Owner = program id (resp. a token program) and the Anchor
+//! discriminator of the *typed* accounts are fixed to the values every account created by the program has
+//! (validity predicate of the account type, not part of this property).
+use crate::common::*;
+use anchor_lang::prelude::*;
+use anchor_lang::Discriminator;
+use std::collections::BTreeSet;
+use ::whirlpool::instructions::*;
+use ::whirlpool::state::{
+    AdaptiveFeeTier, FeeTier, Oracle, TokenBadge, Whirlpool, WhirlpoolsConfig, WhirlpoolsConfigExtension,
+};
+
+const PID: Pubkey = ::whirlpool::ID;
+
+// ---- byte offsets (8-byte discriminator included), from /repo/programs/whirlpool/src/state/*.rs ----
+const CFG_FEE_AUTH: usize = 8;
+const CFG_CPF_AUTH: usize = 40;
+const CFG_SUPER_AUTH: usize = 72;
+const WP_CONFIG: usize = 8;
+const WP_TICK_SPACING: usize = 41;
+const WP_FEE_TIER_INDEX: usize = 43;
+const WP_REWARD0_VAULT: usize = 301;
+const WP_REWARD_AUTH: usize = 333; // reward_infos[0].extension
+const WP_REWARD_STRIDE: usize = 128;
+const FT_CONFIG: usize = 8;
+const AFT_CONFIG: usize = 8;
+const AFT_INDEX: usize = 40;
+const AFT_INIT_POOL_AUTH: usize = 44;
+const AFT_DELEGATED_AUTH: usize = 76;
+const EXT_CONFIG: usize = 8;
+const EXT_CE_AUTH: usize = 40;
+const EXT_TB_AUTH: usize = 72;
+const TB_CONFIG: usize = 8;
+const TB_MINT: usize = 40;
+const ORA_WHIRLPOOL: usize = 8;
+
+fn any_key() -> Pubkey {
+    Pubkey::new_from_array(kani::any())
+}
+fn k32(d: &[u8], off: usize) -> [u8; 32] {
+    let mut o = [0u8; 32];
+    o.copy_from_slice(&d[off..off + 32]);
+    o
+}
+
+/// typed account data of length `N`: discriminator, then `S` symbolic bytes, the remaining (reserved, never
+/// deserialized) bytes zero
+fn typed_data<const N: usize, const S: usize>(disc: &[u8]) -> [u8; N] {
+    let mut d = [0u8; N];
+    let body: [u8; S] = kani::any();
+    d[..8].copy_from_slice(disc);
+    d[8..8 + S].copy_from_slice(&body);
+    d
+}
+/// `WhirlpoolsConfig`: fully symbolic body
+fn config_data() -> [u8; WhirlpoolsConfig::LEN] {
+    typed_data::<{ WhirlpoolsConfig::LEN }, { WhirlpoolsConfig::LEN - 8 }>(WhirlpoolsConfig::DISCRIMINATOR)
+}
+/// `FeeTier`: fully symbolic body
+fn fee_tier_data() -> [u8; FeeTier::LEN] {
+    typed_data::<{ FeeTier::LEN }, { FeeTier::LEN - 8 }>(FeeTier::DISCRIMINATOR)
+}
+/// `AdaptiveFeeTier`: all declared fields symbolic (120 bytes), 128 reserved bytes zero
+fn aft_data() -> [u8; AdaptiveFeeTier::LEN] {
+    typed_data::<{ AdaptiveFeeTier::LEN }, 120>(AdaptiveFeeTier::DISCRIMINATOR)
+}
+/// `WhirlpoolsConfigExtension`: the three keys symbolic, 512 reserved bytes zero
+fn ext_data() -> [u8; WhirlpoolsConfigExtension::LEN] {
+    typed_data::<{ WhirlpoolsConfigExtension::LEN }, 96>(WhirlpoolsConfigExtension::DISCRIMINATOR)
+}
+/// `TokenBadge`: config, mint, attribute byte symbolic, 127 reserved bytes zero
+fn token_badge_data() -> [u8; TokenBadge::LEN] {
+    typed_data::<{ TokenBadge::LEN }, 65>(TokenBadge::DISCRIMINATOR)
+}
+/// `Oracle` (zero-copy): whirlpool key, timestamp, constants, variables symbolic; 128 reserved bytes zero
+fn oracle_data() -> [u8; Oracle::LEN] {
+    typed_data::<{ Oracle::LEN }, { Oracle::LEN - 8 - 128 }>(Oracle::DISCRIMINATOR)
+}
+
+/// `Whirlpool` account data: discriminator, symbolic config back-reference, tick spacing / fee-tier index,
+/// reward authority (reward_infos[0].extension), extension segments of reward 1 and 2, the three reward
+/// mints / vaults; all other (numeric) fields zero.
+fn whirlpool_data() -> [u8; Whirlpool::LEN] {
+    let mut d = [0u8; Whirlpool::LEN];
+    d[..8].copy_from_slice(Whirlpool::DISCRIMINATOR);
+    let cfg: [u8; 32] = kani::any();
+    d[WP_CONFIG..WP_CONFIG + 32].copy_from_slice(&cfg);
+    let ts: [u8; 4] = kani::any();
+    d[WP_TICK_SPACING..WP_TICK_SPACING + 4].copy_from_slice(&ts);
+    let mut i = 0;
+    while i < 3 {
+        let v: [u8; 96] = kani::any(); // mint, vault, extension
+        let o = WP_REWARD0_VAULT - 32 + i * WP_REWARD_STRIDE;
+        d[o..o + 96].copy_from_slice(&v);
+        i += 1;
+    }
+    d
+}
+
+/// declare a symbolic account: key, signer flag, writable flag, lamports symbolic; data and owner given
+macro_rules! acct {
+    ($ai:ident, $key:ident, $signer:ident, $data:expr, $owner:expr) => {
+        let $key = any_key();
+        let $signer: bool = kani::any();
+        let writable: bool = kani::any();
+        let mut lamports: u64 = kani::any();
+        let owner: Pubkey = $owner;
+        let $ai = AccountInfo::new(&$key, $signer, writable, &mut lamports, $data, &owner, false, 0);
+    };
+}
+
+macro_rules! try_accounts {
+    ($t:ty, $accounts:expr, $ix:expr) => {{
+        let mut slice: &[AccountInfo] = &$accounts;
+        let mut bumps = <$t as anchor_lang::Bumps>::Bumps::default();
+        let mut reallocs = BTreeSet::new();
+        <$t as anchor_lang::Accounts<'_, _>>::try_accounts(&PID, &mut slice, $ix, &mut bumps, &mut reallocs)
+    }};
+}
+
+/// set_fee_rate: SetFeeRate::try_accounts Ok => fee_authority signed, its key == config.fee_authority, whirlpool.whirlpools_config == config key
+// @verif prop=C04,C15 tier=quick timeout=300
+#[kani::proof]
+#[kani::unwind(40)]
+#[kani::stub(alloc::fmt::format, stub_format)]
+#[kani::stub(<anchor_lang::error::Error as core::convert::From<anchor_lang::error::ErrorCode>>::from, stub_err_from_anchor_code)]
+#[kani::stub(<anchor_lang::error::Error as core::convert::From<::whirlpool::errors::ErrorCode>>::from, stub_err_from_code)]
+fn c04_set_fee_rate() {
+    let mut cfg_d = config_data();
+    let stored = k32(&cfg_d, CFG_FEE_AUTH);
+    let mut wp_d = whirlpool_data();
+    let wp_cfg = k32(&wp_d, WP_CONFIG);
+    let mut no_d = [0u8; 0];
+    acct!(cfg_ai, cfg_key, cfg_s, &mut cfg_d, PID);
+    acct!(wp_ai, wp_key, wp_s, &mut wp_d, PID);
+    acct!(auth_ai, auth_key, auth_s, &mut no_d, any_key());
+    let accounts = [cfg_ai, wp_ai, auth_ai];
+    let r = try_accounts!(SetFeeRate, accounts, &[]);
+    kani::cover!(r.is_ok(), "ok reachable");
+    kani::cover!(r.is_err(), "err reachable");
+    if r.is_ok() {
+        assert!(auth_s, "authority signed");
+        assert!(auth_key.to_bytes() == stored, "authority is config.fee_authority");
+        assert!(wp_cfg == cfg_key.to_bytes(), "whirlpool belongs to config");
+    }
+    core::mem::forget(r);
+}
+
+/// set_protocol_fee_rate: SetProtocolFeeRate::try_accounts Ok => fee_authority signed, its key == config.fee_authority, whirlpool.whirlpools_config == config key
+// @verif prop=C04,C15 tier=quick timeout=300
+#[kani::proof]
+#[kani::unwind(40)]
+#[kani::stub(alloc::fmt::format, stub_format)]
+#[kani::stub(<anchor_lang::error::Error as core::convert::From<anchor_lang::error::ErrorCode>>::from, stub_err_from_anchor_code)]
+#[kani::stub(<anchor_lang::error::Error as core::convert::From<::whirlpool::errors::ErrorCode>>::from, stub_err_from_code)]
+fn c04_set_protocol_fee_rate() {
+    let mut cfg_d = config_data();
+    let stored = k32(&cfg_d, CFG_FEE_AUTH);
+    let mut wp_d = whirlpool_data();
+    let wp_cfg = k32(&wp_d, WP_CONFIG);
+    let mut no_d = [0u8; 0];
+    acct!(cfg_ai, cfg_key, cfg_s, &mut cfg_d, PID);
+    acct!(wp_ai, wp_key, wp_s, &mut wp_d, PID);
+    acct!(auth_ai, auth_key, auth_s, &mut no_d, any_key());
+    let accounts = [cfg_ai, wp_ai, auth_ai];
+    let r = try_accounts!(SetProtocolFeeRate, accounts, &[]);
+    kani::cover!(r.is_ok(), "ok reachable");
+    kani::cover!(r.is_err(), "err reachable");
+    if r.is_ok() {
+        assert!(auth_s, "authority signed");
+        assert!(auth_key.to_bytes() == stored, "authority is config.fee_authority");
+        assert!(wp_cfg == cfg_key.to_bytes(), "whirlpool belongs to config");
+    }
+    core::mem::forget(r);
+}
+
+/// set_default_fee_rate: Ok => fee_authority signed, key == config.fee_authority, fee_tier.whirlpools_config == config key
+// @verif prop=C04,C15 tier=quick timeout=300
+#[kani::proof]
+#[kani::unwind(40)]
+#[kani::stub(alloc::fmt::format, stub_format)]
+#[kani::stub(<anchor_lang::error::Error as core::convert::From<anchor_lang::error::ErrorCode>>::from, stub_err_from_anchor_code)]
+#[kani::stub(<anchor_lang::error::Error as core::convert::From<::whirlpool::errors::ErrorCode>>::from, stub_err_from_code)]
+fn c04_set_default_fee_rate() {
+    let mut cfg_d = config_data();
+    let stored = k32(&cfg_d, CFG_FEE_AUTH);
+    let mut ft_d = fee_tier_data();
+    let ft_cfg = k32(&ft_d, FT_CONFIG);
+    let mut no_d = [0u8; 0];
+    acct!(cfg_ai, cfg_key, cfg_s, &mut cfg_d, PID);
+    acct!(ft_ai, ft_key, ft_s, &mut ft_d, PID);
+    acct!(auth_ai, auth_key, auth_s, &mut no_d, any_key());
+    let accounts = [cfg_ai, ft_ai, auth_ai];
+    let r = try_accounts!(SetDefaultFeeRate, accounts, &[]);
+    kani::cover!(r.is_ok(), "ok reachable");
+    kani::cover!(r.is_err(), "err reachable");
+    if r.is_ok() {
+        assert!(auth_s, "authority signed");
+        assert!(auth_key.to_bytes() == stored, "authority is config.fee_authority");
+        assert!(ft_cfg == cfg_key.to_bytes(), "fee tier belongs to config");
+    }
+    core::mem::forget(r);
+}
+
+/// set_default_protocol_fee_rate: Ok => fee_authority signed and key == config.fee_authority
+// @verif prop=C04 tier=quick timeout=300
+#[kani::proof]
+#[kani::unwind(40)]
+#[kani::stub(alloc::fmt::format, stub_format)]
+#[kani::stub(<anchor_lang::error::Error as core::convert::From<anchor_lang::error::ErrorCode>>::from, stub_err_from_anchor_code)]
+#[kani::stub(<anchor_lang::error::Error as core::convert::From<::whirlpool::errors::ErrorCode>>::from, stub_err_from_code)]
+fn c04_set_default_protocol_fee_rate() {
+    let mut cfg_d = config_data();
+    let stored = k32(&cfg_d, CFG_FEE_AUTH);
+    let mut no_d = [0u8; 0];
+    acct!(cfg_ai, cfg_key, cfg_s, &mut cfg_d, PID);
+    acct!(auth_ai, auth_key, auth_s, &mut no_d, any_key());
+    let accounts = [cfg_ai, auth_ai];
+    let r = try_accounts!(SetDefaultProtocolFeeRate, accounts, &[]);
+    kani::cover!(r.is_ok(), "ok reachable");
+    kani::cover!(r.is_err(), "err reachable");
+    if r.is_ok() {
+        assert!(auth_s, "authority signed");
+        assert!(auth_key.to_bytes() == stored, "authority is config.fee_authority");
+    }
+    core::mem::forget(r);
+}
+
+/// set_fee_authority: Ok => current authority signed and its key == config.fee_authority (new authority account arbitrary)
+// @verif prop=C04 tier=quick timeout=300
+#[kani::proof]
+#[kani::unwind(40)]
+#[kani::stub(alloc::fmt::format, stub_format)]
+#[kani::stub(<anchor_lang::error::Error as core::convert::From<anchor_lang::error::ErrorCode>>::from, stub_err_from_anchor_code)]
+#[kani::stub(<anchor_lang::error::Error as core::convert::From<::whirlpool::errors::ErrorCode>>::from, stub_err_from_code)]
+fn c04_set_fee_authority() {
+    let mut cfg_d = config_data();
+    let stored = k32(&cfg_d, CFG_FEE_AUTH);
+    let mut no_d = [0u8; 0];
+    let mut no_d2 = [0u8; 0];
+    acct!(cfg_ai, cfg_key, cfg_s, &mut cfg_d, PID);
+    acct!(auth_ai, auth_key, auth_s, &mut no_d, any_key());
+    acct!(new_ai, new_key, new_s, &mut no_d2, any_key());
+    let accounts = [cfg_ai, auth_ai, new_ai];
+    let r = try_accounts!(SetFeeAuthority, accounts, &[]);
+    kani::cover!(r.is_ok(), "ok reachable");
+    kani::cover!(r.is_err(), "err reachable");
+    if r.is_ok() {
+        assert!(auth_s, "authority signed");
+        assert!(auth_key.to_bytes() == stored, "authority is config.fee_authority");
+    }
+    core::mem::forget(r);
+}
+
+/// set_collect_protocol_fees_authority: Ok => current authority signed and its key == config.collect_protocol_fees_authority (new authority account arbitrary)
+// @verif prop=C04 tier=quick timeout=300
+#[kani::proof]
+#[kani::unwind(40)]
+#[kani::stub(alloc::fmt::format, stub_format)]
+#[kani::stub(<anchor_lang::error::Error as core::convert::From<anchor_lang::error::ErrorCode>>::from, stub_err_from_anchor_code)]
+#[kani::stub(<anchor_lang::error::Error as core::convert::From<::whirlpool::errors::ErrorCode>>::from, stub_err_from_code)]
+fn c04_set_collect_protocol_fees_authority() {
+    let mut cfg_d = config_data();
+    let stored = k32(&cfg_d, CFG_CPF_AUTH);
+    let mut no_d = [0u8; 0];
+    let mut no_d2 = [0u8; 0];
+    acct!(cfg_ai, cfg_key, cfg_s, &mut cfg_d, PID);
+    acct!(auth_ai, auth_key, auth_s, &mut no_d, any_key());
+    acct!(new_ai, new_key, new_s, &mut no_d2, any_key());
+    let accounts = [cfg_ai, auth_ai, new_ai];
+    let r = try_accounts!(SetCollectProtocolFeesAuthority, accounts, &[]);
+    kani::cover!(r.is_ok(), "ok reachable");
+    kani::cover!(r.is_err(), "err reachable");
+    if r.is_ok() {
+        assert!(auth_s, "authority signed");
+        assert!(auth_key.to_bytes() == stored, "authority is config.collect_protocol_fees_authority");
+    }
+    core::mem::forget(r);
+}
+
+/// set_reward_emissions_super_authority: Ok => current authority signed and its key == config.reward_emissions_super_authority (new authority account arbitrary)
+// @verif prop=C04 tier=quick timeout=300
+#[kani::proof]
+#[kani::unwind(40)]
+#[kani::stub(alloc::fmt::format, stub_format)]
+#[kani::stub(<anchor_lang::error::Error as core::convert::From<anchor_lang::error::ErrorCode>>::from, stub_err_from_anchor_code)]
+#[kani::stub(<anchor_lang::error::Error as core::convert::From<::whirlpool::errors::ErrorCode>>::from, stub_err_from_code)]
+fn c04_set_reward_emissions_super_authority() {
+    let mut cfg_d = config_data();
+    let stored = k32(&cfg_d, CFG_SUPER_AUTH);
+    let mut no_d = [0u8; 0];
+    let mut no_d2 = [0u8; 0];
+    acct!(cfg_ai, cfg_key, cfg_s, &mut cfg_d, PID);
+    acct!(auth_ai, auth_key, auth_s, &mut no_d, any_key());
+    acct!(new_ai, new_key, new_s, &mut no_d2, any_key());
+    let accounts = [cfg_ai, auth_ai, new_ai];
+    let r = try_accounts!(SetRewardEmissionsSuperAuthority, accounts, &[]);
+    kani::cover!(r.is_ok(), "ok reachable");
+    kani::cover!(r.is_err(), "err reachable");
+    if r.is_ok() {
+        assert!(auth_s, "authority signed");
+        assert!(auth_key.to_bytes() == stored, "authority is config.reward_emissions_super_authority");
+    }
+    core::mem::forget(r);
+}
+
+/// set_reward_authority: Ok => reward_authority signed and key == whirlpool.reward_authority() (reward_infos[0].extension)
+// @verif prop=C04 tier=quick timeout=300
+#[kani::proof]
+#[kani::unwind(40)]
+#[kani::stub(alloc::fmt::format, stub_format)]
+#[kani::stub(<anchor_lang::error::Error as core::convert::From<anchor_lang::error::ErrorCode>>::from, stub_err_from_anchor_code)]
+#[kani::stub(<anchor_lang::error::Error as core::convert::From<::whirlpool::errors::ErrorCode>>::from, stub_err_from_code)]
+fn c04_set_reward_authority() {
+    let mut wp_d = whirlpool_data();
+    let stored = k32(&wp_d, WP_REWARD_AUTH);
+    let mut no_d = [0u8; 0];
+    let mut no_d2 = [0u8; 0];
+    acct!(wp_ai, wp_key, wp_s, &mut wp_d, PID);
+    acct!(auth_ai, auth_key, auth_s, &mut no_d, any_key());
+    acct!(new_ai, new_key, new_s, &mut no_d2, any_key());
+    let accounts = [wp_ai, auth_ai, new_ai];
+    let r = try_accounts!(SetRewardAuthority, accounts, &[]);
+    kani::cover!(r.is_ok(), "ok reachable");
+    kani::cover!(r.is_err(), "err reachable");
+    if r.is_ok() {
+        assert!(auth_s, "authority signed");
+        assert!(auth_key.to_bytes() == stored, "authority is the whirlpool reward authority");
+    }
+    core::mem::forget(r);
+}
+
+/// set_reward_authority_by_super_authority: Ok => super authority signed, key == config.reward_emissions_super_authority, whirlpool.whirlpools_config == config key (reward_index byte symbolic)
+// @verif prop=C04,C15 tier=quick timeout=300
+#[kani::proof]
+#[kani::unwind(40)]
+#[kani::stub(alloc::fmt::format, stub_format)]
+#[kani::stub(<anchor_lang::error::Error as core::convert::From<anchor_lang::error::ErrorCode>>::from, stub_err_from_anchor_code)]
+#[kani::stub(<anchor_lang::error::Error as core::convert::From<::whirlpool::errors::ErrorCode>>::from, stub_err_from_code)]
+fn c04_set_reward_authority_by_super_authority() {
+    let mut cfg_d = config_data();
+    let stored = k32(&cfg_d, CFG_SUPER_AUTH);
+    let mut wp_d = whirlpool_data();
+    let wp_cfg = k32(&wp_d, WP_CONFIG);
+    let ix: [u8; 1] = kani::any();
+    let mut no_d = [0u8; 0];
+    let mut no_d2 = [0u8; 0];
+    acct!(cfg_ai, cfg_key, cfg_s, &mut cfg_d, PID);
+    acct!(wp_ai, wp_key, wp_s, &mut wp_d, PID);
+    acct!(auth_ai, auth_key, auth_s, &mut no_d, any_key());
+    acct!(new_ai, new_key, new_s, &mut no_d2, any_key());
+    let accounts = [cfg_ai, wp_ai, auth_ai, new_ai];
+    let r = try_accounts!(SetRewardAuthorityBySuperAuthority, accounts, &ix);
+    kani::cover!(r.is_ok(), "ok reachable");
+    kani::cover!(r.is_err(), "err reachable");
+    if r.is_ok() {
+        assert!(auth_s, "authority signed");
+        assert!(auth_key.to_bytes() == stored, "authority is config.reward_emissions_super_authority");
+        assert!(wp_cfg == cfg_key.to_bytes(), "whirlpool belongs to config");
+    }
+    core::mem::forget(r);
+}
+
+/// set_reward_emissions: Ok => reward_authority signed, key == whirlpool.reward_authority(), vault key == whirlpool.reward_infos[reward_index].vault. vault owned by the Token program, all 165 bytes symbolic. reward_index >= 3 is excluded: the constraint indexes a [_; 3] and panics (= the transaction aborts), which Kani would report as a failure
+// @verif prop=C04,C15 tier=quick timeout=300
+#[kani::proof]
+#[kani::unwind(40)]
+#[kani::stub(alloc::fmt::format, stub_format)]
+#[kani::stub(<anchor_lang::error::Error as core::convert::From<anchor_lang::error::ErrorCode>>::from, stub_err_from_anchor_code)]
+#[kani::stub(<anchor_lang::error::Error as core::convert::From<::whirlpool::errors::ErrorCode>>::from, stub_err_from_code)]
+fn c04_set_reward_emissions() {
+    let mut wp_d = whirlpool_data();
+    let stored = k32(&wp_d, WP_REWARD_AUTH);
+    let ix: [u8; 1] = kani::any();
+    kani::assume(ix[0] < 3);
+    let vault = k32(&wp_d, WP_REWARD0_VAULT + ix[0] as usize * WP_REWARD_STRIDE);
+    let mut va_d: [u8; 165] = kani::any();
+    let mut no_d = [0u8; 0];
+    acct!(wp_ai, wp_key, wp_s, &mut wp_d, PID);
+    acct!(auth_ai, auth_key, auth_s, &mut no_d, any_key());
+    acct!(va_ai, va_key, va_s, &mut va_d, anchor_spl::token::ID);
+    let accounts = [wp_ai, auth_ai, va_ai];
+    let r = try_accounts!(SetRewardEmissions, accounts, &ix);
+    kani::cover!(r.is_ok(), "ok reachable");
+    kani::cover!(r.is_err(), "err reachable");
+    if r.is_ok() {
+        assert!(auth_s, "authority signed");
+        assert!(auth_key.to_bytes() == stored, "authority is the whirlpool reward authority");
+        assert!(va_key.to_bytes() == vault, "vault is the pool's vault of that reward");
+    }
+    core::mem::forget(r);
+}
+
+/// set_reward_emissions_v2: Ok => reward_authority signed, key == whirlpool.reward_authority(), vault key == whirlpool.reward_infos[reward_index].vault. vault owned by Token or Token-2022, 165 bytes (no account extensions), all 165 bytes symbolic. reward_index >= 3 is excluded: the constraint indexes a [_; 3] and panics (= the transaction aborts), which Kani would report as a failure
+// @verif prop=C04,C15 tier=quick timeout=300
+#[kani::proof]
+#[kani::unwind(40)]
+#[kani::stub(alloc::fmt::format, stub_format)]
+#[kani::stub(<anchor_lang::error::Error as core::convert::From<anchor_lang::error::ErrorCode>>::from, stub_err_from_anchor_code)]
+#[kani::stub(<anchor_lang::error::Error as core::convert::From<::whirlpool::errors::ErrorCode>>::from, stub_err_from_code)]
+fn c04_set_reward_emissions_v2() {
+    let mut wp_d = whirlpool_data();
+    let stored = k32(&wp_d, WP_REWARD_AUTH);
+    let ix: [u8; 1] = kani::any();
+    kani::assume(ix[0] < 3);
+    let vault = k32(&wp_d, WP_REWARD0_VAULT + ix[0] as usize * WP_REWARD_STRIDE);
+    let mut va_d: [u8; 165] = kani::any();
+    let mut no_d = [0u8; 0];
+    acct!(wp_ai, wp_key, wp_s, &mut wp_d, PID);
+    acct!(auth_ai, auth_key, auth_s, &mut no_d, any_key());
+    acct!(va_ai, va_key, va_s, &mut va_d, if kani::any() { anchor_spl::token::ID } else { anchor_spl::token_2022::ID });
+    let accounts = [wp_ai, auth_ai, va_ai];
+    let r = try_accounts!(SetRewardEmissionsV2, accounts, &ix);
+    kani::cover!(r.is_ok(), "ok reachable");
+    kani::cover!(r.is_err(), "err reachable");
+    if r.is_ok() {
+        assert!(auth_s, "authority signed");
+        assert!(auth_key.to_bytes() == stored, "authority is the whirlpool reward authority");
+        assert!(va_key.to_bytes() == vault, "vault is the pool's vault of that reward");
+    }
+    core::mem::forget(r);
+}
+
+/// set_default_base_fee_rate: Ok => fee_authority signed, key == config.fee_authority, adaptive_fee_tier.whirlpools_config == config key
+// @verif prop=C04,C15 tier=quick timeout=300
+#[kani::proof]
+#[kani::unwind(40)]
+#[kani::stub(alloc::fmt::format, stub_format)]
+#[kani::stub(<anchor_lang::error::Error as core::convert::From<anchor_lang::error::ErrorCode>>::from, stub_err_from_anchor_code)]
+#[kani::stub(<anchor_lang::error::Error as core::convert::From<::whirlpool::errors::ErrorCode>>::from, stub_err_from_code)]
+fn c04_set_default_base_fee_rate() {
+    let mut cfg_d = config_data();
+    let stored = k32(&cfg_d, CFG_FEE_AUTH);
+    let mut aft_d = aft_data();
+    let aft_cfg = k32(&aft_d, AFT_CONFIG);
+    let mut no_d = [0u8; 0];
+    acct!(cfg_ai, cfg_key, cfg_s, &mut cfg_d, PID);
+    acct!(aft_ai, aft_key, aft_s, &mut aft_d, PID);
+    acct!(auth_ai, auth_key, auth_s, &mut no_d, any_key());
+    let accounts = [cfg_ai, aft_ai, auth_ai];
+    let r = try_accounts!(SetDefaultBaseFeeRate, accounts, &[]);
+    kani::cover!(r.is_ok(), "ok reachable");
+    kani::cover!(r.is_err(), "err reachable");
+    if r.is_ok() {
+        assert!(auth_s, "authority signed");
+        assert!(auth_key.to_bytes() == stored, "authority is config.fee_authority");
+        assert!(aft_cfg == cfg_key.to_bytes(), "adaptive fee tier belongs to config");
+    }
+    core::mem::forget(r);
+}
+
+/// set_preset_adaptive_fee_constants: Ok => fee_authority signed, key == config.fee_authority, adaptive_fee_tier.whirlpools_config == config key
+// @verif prop=C04,C15 tier=quick timeout=300
+#[kani::proof]
+#[kani::unwind(40)]
+#[kani::stub(alloc::fmt::format, stub_format)]
+#[kani::stub(<anchor_lang::error::Error as core::convert::From<anchor_lang::error::ErrorCode>>::from, stub_err_from_anchor_code)]
+#[kani::stub(<anchor_lang::error::Error as core::convert::From<::whirlpool::errors::ErrorCode>>::from, stub_err_from_code)]
+fn c04_set_preset_adaptive_fee_constants() {
+    let mut cfg_d = config_data();
+    let stored = k32(&cfg_d, CFG_FEE_AUTH);
+    let mut aft_d = aft_data();
+    let aft_cfg = k32(&aft_d, AFT_CONFIG);
+    let mut no_d = [0u8; 0];
+    acct!(cfg_ai, cfg_key, cfg_s, &mut cfg_d, PID);
+    acct!(aft_ai, aft_key, aft_s, &mut aft_d, PID);
+    acct!(auth_ai, auth_key, auth_s, &mut no_d, any_key());
+    let accounts = [cfg_ai, aft_ai, auth_ai];
+    let r = try_accounts!(SetPresetAdaptiveFeeConstants, accounts, &[]);
+    kani::cover!(r.is_ok(), "ok reachable");
+    kani::cover!(r.is_err(), "err reachable");
+    if r.is_ok() {
+        assert!(auth_s, "authority signed");
+        assert!(auth_key.to_bytes() == stored, "authority is config.fee_authority");
+        assert!(aft_cfg == cfg_key.to_bytes(), "adaptive fee tier belongs to config");
+    }
+    core::mem::forget(r);
+}
+
+/// set_delegated_fee_authority: Ok => fee_authority signed, key == config.fee_authority, adaptive_fee_tier.whirlpools_config == config key (new authority account arbitrary)
+// @verif prop=C04,C15 tier=quick timeout=300
+#[kani::proof]
+#[kani::unwind(40)]
+#[kani::stub(alloc::fmt::format, stub_format)]
+#[kani::stub(<anchor_lang::error::Error as core::convert::From<anchor_lang::error::ErrorCode>>::from, stub_err_from_anchor_code)]
+#[kani::stub(<anchor_lang::error::Error as core::convert::From<::whirlpool::errors::ErrorCode>>::from, stub_err_from_code)]
+fn c04_set_delegated_fee_authority() {
+    let mut cfg_d = config_data();
+    let stored = k32(&cfg_d, CFG_FEE_AUTH);
+    let mut aft_d = aft_data();
+    let aft_cfg = k32(&aft_d, AFT_CONFIG);
+    let mut no_d = [0u8; 0];
+    let mut no_d2 = [0u8; 0];
+    acct!(cfg_ai, cfg_key, cfg_s, &mut cfg_d, PID);
+    acct!(aft_ai, aft_key, aft_s, &mut aft_d, PID);
+    acct!(auth_ai, auth_key, auth_s, &mut no_d, any_key());
+    acct!(new_ai, new_key, new_s, &mut no_d2, any_key());
+    let accounts = [cfg_ai, aft_ai, auth_ai, new_ai];
+    let r = try_accounts!(SetDelegatedFeeAuthority, accounts, &[]);
+    kani::cover!(r.is_ok(), "ok reachable");
+    kani::cover!(r.is_err(), "err reachable");
+    if r.is_ok() {
+        assert!(auth_s, "authority signed");
+        assert!(auth_key.to_bytes() == stored, "authority is config.fee_authority");
+        assert!(aft_cfg == cfg_key.to_bytes(), "adaptive fee tier belongs to config");
+    }
+    core::mem::forget(r);
+}
+
+/// set_initialize_pool_authority: Ok => fee_authority signed, key == config.fee_authority, adaptive_fee_tier.whirlpools_config == config key (new authority account arbitrary)
+// @verif prop=C04,C15 tier=quick timeout=300
+#[kani::proof]
+#[kani::unwind(40)]
+#[kani::stub(alloc::fmt::format, stub_format)]
+#[kani::stub(<anchor_lang::error::Error as core::convert::From<anchor_lang::error::ErrorCode>>::from, stub_err_from_anchor_code)]
+#[kani::stub(<anchor_lang::error::Error as core::convert::From<::whirlpool::errors::ErrorCode>>::from, stub_err_from_code)]
+fn c04_set_initialize_pool_authority() {
+    let mut cfg_d = config_data();
+    let stored = k32(&cfg_d, CFG_FEE_AUTH);
+    let mut aft_d = aft_data();
+    let aft_cfg = k32(&aft_d, AFT_CONFIG);
+    let mut no_d = [0u8; 0];
+    let mut no_d2 = [0u8; 0];
+    acct!(cfg_ai, cfg_key, cfg_s, &mut cfg_d, PID);
+    acct!(aft_ai, aft_key, aft_s, &mut aft_d, PID);
+    acct!(auth_ai, auth_key, auth_s, &mut no_d, any_key());
+    acct!(new_ai, new_key, new_s, &mut no_d2, any_key());
+    let accounts = [cfg_ai, aft_ai, auth_ai, new_ai];
+    let r = try_accounts!(SetInitializePoolAuthority, accounts, &[]);
+    kani::cover!(r.is_ok(), "ok reachable");
+    kani::cover!(r.is_err(), "err reachable");
+    if r.is_ok() {
+        assert!(auth_s, "authority signed");
+        assert!(auth_key.to_bytes() == stored, "authority is config.fee_authority");
+        assert!(aft_cfg == cfg_key.to_bytes(), "adaptive fee tier belongs to config");
+    }
+    core::mem::forget(r);
+}
+
+/// set_fee_rate_by_delegated_fee_authority: Ok => delegated authority signed, key == adaptive_fee_tier.delegated_fee_authority, and the tier is the pool's tier (same config, same fee_tier_index, pool created with an adaptive fee tier)
+// @verif prop=C04,C15 tier=quick timeout=300
+#[kani::proof]
+#[kani::unwind(40)]
+#[kani::stub(alloc::fmt::format, stub_format)]
+#[kani::stub(<anchor_lang::error::Error as core::convert::From<anchor_lang::error::ErrorCode>>::from, stub_err_from_anchor_code)]
+#[kani::stub(<anchor_lang::error::Error as core::convert::From<::whirlpool::errors::ErrorCode>>::from, stub_err_from_code)]
+fn c04_set_fee_rate_by_delegated_fee_authority() {
+    let mut wp_d = whirlpool_data();
+    let wp_cfg = k32(&wp_d, WP_CONFIG);
+    let wp_ts = [wp_d[WP_TICK_SPACING], wp_d[WP_TICK_SPACING + 1]];
+    let wp_idx = [wp_d[WP_FEE_TIER_INDEX], wp_d[WP_FEE_TIER_INDEX + 1]];
+    let mut aft_d = aft_data();
+    let aft_cfg = k32(&aft_d, AFT_CONFIG);
+    let aft_idx = [aft_d[AFT_INDEX], aft_d[AFT_INDEX + 1]];
+    let stored = k32(&aft_d, AFT_DELEGATED_AUTH);
+    let mut no_d = [0u8; 0];
+    acct!(wp_ai, wp_key, wp_s, &mut wp_d, PID);
+    acct!(aft_ai, aft_key, aft_s, &mut aft_d, PID);
+    acct!(auth_ai, auth_key, auth_s, &mut no_d, any_key());
+    let accounts = [wp_ai, aft_ai, auth_ai];
+    let r = try_accounts!(SetFeeRateByDelegatedFeeAuthority, accounts, &[]);
+    kani::cover!(r.is_ok(), "ok reachable");
+    kani::cover!(r.is_err(), "err reachable");
+    if r.is_ok() {
+        assert!(auth_s, "authority signed");
+        assert!(auth_key.to_bytes() == stored, "authority is adaptive_fee_tier.delegated_fee_authority");
+        assert!(aft_cfg == wp_cfg, "tier and pool under the same config");
+        assert!(aft_idx == wp_idx, "tier is the pool's fee tier");
+        assert!(wp_idx != wp_ts, "pool was initialized with an adaptive fee tier");
+    }
+    core::mem::forget(r);
+}
+
+/// set_adaptive_fee_constants: Ok => fee_authority signed, key == config.fee_authority, whirlpool.whirlpools_config == config key, oracle.whirlpool == whirlpool key
+// @verif prop=C04,C15 tier=quick timeout=300
+#[kani::proof]
+#[kani::unwind(40)]
+#[kani::stub(alloc::fmt::format, stub_format)]
+#[kani::stub(<anchor_lang::error::Error as core::convert::From<anchor_lang::error::ErrorCode>>::from, stub_err_from_anchor_code)]
+#[kani::stub(<anchor_lang::error::Error as core::convert::From<::whirlpool::errors::ErrorCode>>::from, stub_err_from_code)]
+fn c04_set_adaptive_fee_constants() {
+    let mut wp_d = whirlpool_data();
+    let wp_cfg = k32(&wp_d, WP_CONFIG);
+    let mut cfg_d = config_data();
+    let stored = k32(&cfg_d, CFG_FEE_AUTH);
+    let mut ora_d = oracle_data();
+    let ora_wp = k32(&ora_d, ORA_WHIRLPOOL);
+    let mut no_d = [0u8; 0];
+    acct!(wp_ai, wp_key, wp_s, &mut wp_d, PID);
+    acct!(cfg_ai, cfg_key, cfg_s, &mut cfg_d, PID);
+    acct!(ora_ai, ora_key, ora_s, &mut ora_d, PID);
+    acct!(auth_ai, auth_key, auth_s, &mut no_d, any_key());
+    let accounts = [wp_ai, cfg_ai, ora_ai, auth_ai];
+    let r = try_accounts!(SetAdaptiveFeeConstants, accounts, &[]);
+    kani::cover!(r.is_ok(), "ok reachable");
+    kani::cover!(r.is_err(), "err reachable");
+    if r.is_ok() {
+        assert!(auth_s, "authority signed");
+        assert!(auth_key.to_bytes() == stored, "authority is config.fee_authority");
+        assert!(wp_cfg == cfg_key.to_bytes(), "whirlpool belongs to config");
+        assert!(ora_wp == wp_key.to_bytes(), "oracle belongs to whirlpool");
+    }
+    core::mem::forget(r);
+}
+
+/// set_config_feature_flag: Ok => authority signed and its key is one of auth::admin::ADMINS (table of the feature set this crate is built with: default/localnet)
+// @verif prop=C04 tier=quick timeout=300
+#[kani::proof]
+#[kani::unwind(40)]
+#[kani::stub(alloc::fmt::format, stub_format)]
+#[kani::stub(<anchor_lang::error::Error as core::convert::From<anchor_lang::error::ErrorCode>>::from, stub_err_from_anchor_code)]
+#[kani::stub(<anchor_lang::error::Error as core::convert::From<::whirlpool::errors::ErrorCode>>::from, stub_err_from_code)]
+fn c04_set_config_feature_flag() {
+    let mut cfg_d = config_data();
+    let mut no_d = [0u8; 0];
+    acct!(cfg_ai, cfg_key, cfg_s, &mut cfg_d, PID);
+    acct!(auth_ai, auth_key, auth_s, &mut no_d, any_key());
+    let accounts = [cfg_ai, auth_ai];
+    let r = try_accounts!(SetConfigFeatureFlag, accounts, &[]);
+    kani::cover!(r.is_ok(), "ok reachable");
+    kani::cover!(r.is_err(), "err reachable");
+    if r.is_ok() {
+        assert!(auth_s, "authority signed");
+        let admins = ::whirlpool::auth::admin::ADMINS;
+        assert!(auth_key == admins[0] || auth_key == admins[1], "authority is an admin key");
+    }
+    core::mem::forget(r);
+}
+
+/// set_config_extension_authority: Ok => config_extension_authority signed, key == config_extension.config_extension_authority, config_extension.whirlpools_config == config key (new config extension authority account arbitrary)
+// @verif prop=C04,C15 tier=quick timeout=300
+#[kani::proof]
+#[kani::unwind(40)]
+#[kani::stub(alloc::fmt::format, stub_format)]
+#[kani::stub(<anchor_lang::error::Error as core::convert::From<anchor_lang::error::ErrorCode>>::from, stub_err_from_anchor_code)]
+#[kani::stub(<anchor_lang::error::Error as core::convert::From<::whirlpool::errors::ErrorCode>>::from, stub_err_from_code)]
+fn c04_set_config_extension_authority() {
+    let mut cfg_d = config_data();
+    let mut ext_d = ext_data();
+    let ext_cfg = k32(&ext_d, EXT_CONFIG);
+    let stored = k32(&ext_d, EXT_CE_AUTH);
+    let mut no_d = [0u8; 0];
+    let mut no_d2 = [0u8; 0];
+    acct!(cfg_ai, cfg_key, cfg_s, &mut cfg_d, PID);
+    acct!(ext_ai, ext_key, ext_s, &mut ext_d, PID);
+    acct!(auth_ai, auth_key, auth_s, &mut no_d, any_key());
+    acct!(new_ai, new_key, new_s, &mut no_d2, any_key());
+    let accounts = [cfg_ai, ext_ai, auth_ai, new_ai];
+    let r = try_accounts!(SetConfigExtensionAuthority, accounts, &[]);
+    kani::cover!(r.is_ok(), "ok reachable");
+    kani::cover!(r.is_err(), "err reachable");
+    if r.is_ok() {
+        assert!(auth_s, "authority signed");
+        assert!(auth_key.to_bytes() == stored, "authority is config_extension.config_extension_authority");
+        assert!(ext_cfg == cfg_key.to_bytes(), "config extension belongs to config");
+    }
+    core::mem::forget(r);
+}
+
+/// set_token_badge_authority: Ok => config_extension_authority signed, key == config_extension.config_extension_authority, config_extension.whirlpools_config == config key (new token badge authority account arbitrary)
+// @verif prop=C04,C15 tier=quick timeout=300
+#[kani::proof]
+#[kani::unwind(40)]
+#[kani::stub(alloc::fmt::format, stub_format)]
+#[kani::stub(<anchor_lang::error::Error as core::convert::From<anchor_lang::error::ErrorCode>>::from, stub_err_from_anchor_code)]
+#[kani::stub(<anchor_lang::error::Error as core::convert::From<::whirlpool::errors::ErrorCode>>::from, stub_err_from_code)]
+fn c04_set_token_badge_authority() {
+    let mut cfg_d = config_data();
+    let mut ext_d = ext_data();
+    let ext_cfg = k32(&ext_d, EXT_CONFIG);
+    let stored = k32(&ext_d, EXT_CE_AUTH);
+    let mut no_d = [0u8; 0];
+    let mut no_d2 = [0u8; 0];
+    acct!(cfg_ai, cfg_key, cfg_s, &mut cfg_d, PID);
+    acct!(ext_ai, ext_key, ext_s, &mut ext_d, PID);
+    acct!(auth_ai, auth_key, auth_s, &mut no_d, any_key());
+    acct!(new_ai, new_key, new_s, &mut no_d2, any_key());
+    let accounts = [cfg_ai, ext_ai, auth_ai, new_ai];
+    let r = try_accounts!(SetTokenBadgeAuthority, accounts, &[]);
+    kani::cover!(r.is_ok(), "ok reachable");
+    kani::cover!(r.is_err(), "err reachable");
+    if r.is_ok() {
+        assert!(auth_s, "authority signed");
+        assert!(auth_key.to_bytes() == stored, "authority is config_extension.config_extension_authority");
+        assert!(ext_cfg == cfg_key.to_bytes(), "config extension belongs to config");
+    }
+    core::mem::forget(r);
+}
+
+/// set_token_badge_attribute: Ok => token_badge_authority signed, key == config_extension.token_badge_authority, extension and badge belong to config, badge.token_mint == mint key. Mint: 82 symbolic bytes owned by Token or Token-2022
+// @verif prop=C04,C15 tier=thorough timeout=900
+#[kani::proof]
+#[kani::unwind(40)]
+#[kani::stub(alloc::fmt::format, stub_format)]
+#[kani::stub(<anchor_lang::error::Error as core::convert::From<anchor_lang::error::ErrorCode>>::from, stub_err_from_anchor_code)]
+#[kani::stub(<anchor_lang::error::Error as core::convert::From<::whirlpool::errors::ErrorCode>>::from, stub_err_from_code)]
+fn c04_set_token_badge_attribute() {
+    let mut cfg_d = config_data();
+    let mut ext_d = ext_data();
+    let ext_cfg = k32(&ext_d, EXT_CONFIG);
+    let stored = k32(&ext_d, EXT_TB_AUTH);
+    let mut mint_d: [u8; 82] = kani::any();
+    let mut tb_d = token_badge_data();
+    let tb_cfg = k32(&tb_d, TB_CONFIG);
+    let tb_mint = k32(&tb_d, TB_MINT);
+    let mut no_d = [0u8; 0];
+    acct!(cfg_ai, cfg_key, cfg_s, &mut cfg_d, PID);
+    acct!(ext_ai, ext_key, ext_s, &mut ext_d, PID);
+    acct!(auth_ai, auth_key, auth_s, &mut no_d, any_key());
+    acct!(mint_ai, mint_key, mint_s, &mut mint_d, if kani::any() { anchor_spl::token::ID } else { anchor_spl::token_2022::ID });
+    acct!(tb_ai, tb_key, tb_s, &mut tb_d, PID);
+    let accounts = [cfg_ai, ext_ai, auth_ai, mint_ai, tb_ai];
+    let r = try_accounts!(SetTokenBadgeAttribute, accounts, &[]);
+    kani::cover!(r.is_ok(), "ok reachable");
+    kani::cover!(r.is_err(), "err reachable");
+    if r.is_ok() {
+        assert!(auth_s, "authority signed");
+        assert!(auth_key.to_bytes() == stored, "authority is config_extension.token_badge_authority");
+        assert!(ext_cfg == cfg_key.to_bytes(), "config extension belongs to config");
+        assert!(tb_cfg == cfg_key.to_bytes(), "token badge belongs to config");
+        assert!(tb_mint == mint_key.to_bytes(), "token badge is the badge of that mint");
+    }
+    core::mem::forget(r);
+}
+
+/// vacuity twin: must FAIL (a correctly signed set_default_protocol_fee_rate is accepted)
+// @verif prop=C04 tier=quick timeout=300 twin
+#[kani::proof]
+#[kani::unwind(40)]
+#[kani::stub(alloc::fmt::format, stub_format)]
+#[kani::stub(<anchor_lang::error::Error as core::convert::From<anchor_lang::error::ErrorCode>>::from, stub_err_from_anchor_code)]
+#[kani::stub(<anchor_lang::error::Error as core::convert::From<::whirlpool::errors::ErrorCode>>::from, stub_err_from_code)]
+fn c04_twin_must_fail() {
+    let mut cfg_d = config_data();
+    let mut no_d = [0u8; 0];
+    acct!(cfg_ai, cfg_key, cfg_s, &mut cfg_d, PID);
+    acct!(auth_ai, auth_key, auth_s, &mut no_d, any_key());
+    let accounts = [cfg_ai, auth_ai];
+    let r = try_accounts!(SetDefaultProtocolFeeRate, accounts, &[]);
+    let ok = r.is_ok();
+    core::mem::forget(r);
+    assert!(!ok, "twin: reachable Ok must be reported");
+}
